@@ -70,7 +70,10 @@ def one_trace(tid, n, game, mode, family):
         t["one_grand"] = int(float(out[-1]) == 1.0)
         if mode == "exact":
             t["surplus"] = D.interval(float(info[0]), t["scale"], rel_ulps=4 * n, mag=maxabs * n, tight=True)
-            t["singles"] = D.exact_arr(info[1], t["scale"])
+            try:
+                t["singles"] = D.exact_arr(info[1], t["scale"])
+            except D.DriverError:
+                t["singles"] = [10 ** 7] * n          # norm info outside the exact domain: fails the NormInfo clause
         else:
             t["singles"] = [0] * n
         den_game = work.copy()
